@@ -11,8 +11,9 @@ sin <defUnit> <absent|dispatch|divide> <num|int> <count> <op> <op> …
         K                             all known periods    -> [p=v1;v2&p=…]   (sorted)
 ```
 One case per line (a fresh holder), the answers of the ops separated by one blank. `<mode>` says
-how the harness passes the values to the real code (Python floats, ints, numpy arrays); the
-model ignores it. Values are exact rationals `p/q` in lowest terms (`p` when `q = 1`).
+how the harness passes the values to the real code (Python floats, ints, tuples, numpy arrays;
+`<mode>@<k>` = the caller's object number `k`, the same object passed again); the model ignores it:
+an argument is an input whose value is the one written in the token, never scratch space. Values are exact rationals `p/q` in lowest terms (`p` when `q = 1`).
 -/
 namespace OFCore.Drv
 
